@@ -2,6 +2,7 @@ package main
 
 import (
 	"bytes"
+	"strings"
 	"encoding/hex"
 	"fmt"
 	"io"
@@ -177,6 +178,9 @@ func judgeNow(c *mon.Ctx, r *grp, s *slib, es []entry, b []byte, cls string) {
 			o = e.run(r, s, in)
 		}()
 		c.Class(r.name + "/" + e.name + "/" + cls)
+		if strings.HasPrefix(cls, "compressed/chunk0=p") && e.name == "SetBytes" {
+			c.SampleOnce(r.name, map[string]any{"entry": e.name, "class": cls, "input": hx(b), "library_error": fmt.Sprint(o.err), "reference_ok": vd.OK, "reference_reason": vd.Why})
+		}
 		desc := func() string {
 			return fmt.Sprintf("input(%d bytes)=%s subgroupCheck=%v: library err=%v point=%s n=%d; reference ok=%v alias=%v why=%q point=%s n=%d",
 				len(b), hx(b), e.sg, o.err, ptStr(r, o), o.n, vd.OK, vd.Alias, vd.Why, r.fm.C.String(vd.P), vd.N)
